@@ -478,7 +478,7 @@ func vfExecProd(c *vfProdCase) *vfProdRun {
 	oldPH := PanicHandler
 	PanicHandler = func(v interface{}) {
 		run.mu.Lock()
-		run.panics = append(run.panics, fmt.Sprint(v))
+		run.panics = append(run.panics, fmt.Sprintf("%v\n%s", v, vfShortStack()))
 		run.mu.Unlock()
 	}
 	defer func() { PanicHandler = oldPH }()
